@@ -266,6 +266,8 @@ def operands(w, u):
         ops.append(('ptr_' + pn, w.temp(pt, 'p' + pn), {'k': 'ptr', 'pointee': pn, 'type': pt}))
     z = w.mkexpr('EXPRCONST', u['int'], None, u__constant__u=0)
     ops.append(('zero', z, {'k': 'arith', 't': 'int', 'w': None, 'null': True}))
+    nv = w.mkexpr('EXPRCONST', ptrs['void'], None, u__constant__u=0)        # (void *)0: a null pointer constant of pointer type
+    ops.append(('nullvoid', nv, {'k': 'ptr', 'pointee': 'void', 'type': ptrs['void'], 'null': True}))
     sv = w.mkstruct(size=8, align=4)
     ops.append(('struct', w.temp(sv, 's'), {'k': 'struct'}))
     return ops
@@ -660,6 +662,140 @@ def rule_conditional(chk, prog, tier):
     for cv, which in sel.items():
         r.instance(which == ('l' if cv else 'r'), 'cond-const:%d' % cv, 'expr.c:%s' % fn.get('line'), 'a constant condition %d must select the %s operand; selected %s' % (cv, 'second' if cv else 'third', which))
     r.exhaustive = True
+
+
+# ------------------------------------------------------------------ C05.m value category of results
+
+def rule_value_category(chk, prog, tier):
+    r = chk.rule('C05.m', 'operators that hand one of their operands on - unary +, a conditional expression whose condition is constant, __builtin_expect - yield a value, not the operand designator: the result is not an lvalue '
+                 '(so = ++ & on it are diagnosed), not a bit-field designator, and an array operand stays converted to a pointer (sizeof / & / typeof see the pointer, not the array)',
+                 floor=20, oracle='C11 6.5.3.3p2, 6.5.15 (footnote 110), 6.3.2.1p2-3')
+    ue = prog.require_func('unaryexpr', 'expr.c')
+    ce = prog.require_func('condexpr', 'expr.c')
+    bf = prog.require_func('builtinfunc', 'expr.c')
+    OPERANDS = ['int', 'long', 'double', 'int:7', 'int:32', 'ulong:64', 'ptr', 'array', 'struct']
+    def mkoperand(it, w, name):
+        def lv(e): e.obj.f[('lvalue',)] = 1; return e
+        if ':' in name:
+            tn, wd = name.split(':'); size = {'int': 4, 'ulong': 8}[tn]
+            e = w.mkexpr('EXPRBITFIELD', w.t(tn), lv(w.temp(w.t(tn), 'b')), u__bitfield__bits__before=0, u__bitfield__bits__after=size * 8 - int(wd)); return lv(e)
+        if name == 'ptr': return lv(w.temp(w.mkptr(w.t('int')), 'p'))
+        if name == 'array': return it.call('decay', [lv(w.temp(it.call('mkarraytype', [w.t('int'), 0, 3]), 'a'))])
+        if name == 'struct': return lv(w.temp(w.mkstruct(size=8, align=4), 's'))
+        return lv(w.temp(w.t(name), 'x'))
+    def category(it, e):
+        return {'lvalue': bool(it.load(e.obj, ('lvalue',))), 'array': bool(it.load(e.obj, ('decayed',))), 'bit-field': it.load(e.obj, ('kind',)) == ev(prog, 'EXPRBITFIELD')}
+    def judge(form, name, run, valid):
+        key = 'category:%s,%s' % (form, name)
+        if len([run]) != 1 or run.outcome not in ('return', 'terminal:error'):
+            raise AnalysisBroken('%s: %s %s' % (key, run.outcome, run.detail))
+        if not valid:
+            r.instance(run.outcome == 'terminal:error', key, 'expr.c', 'invalid operand: must be diagnosed; got %s' % (run.value if run.outcome == 'return' else run.outcome,)); return
+        if run.outcome != 'return':
+            r.instance(False, key, 'expr.c', 'valid expression rejected: %s' % (run.detail,)); return
+        bad = [k for k, v in run.value.items() if v]
+        r.instance(not bad, key, 'expr.c', 'the result must be a plain value; cproc hands on the operand as %s' % ' and '.join('an lvalue' if k == 'lvalue' else 'an array designator (decay undone by sizeof/&/typeof)' if k == 'array' else 'a bit-field designator' for k in bad))
+    ERR = {'fatal': lambda i2, a, e: (_ for _ in ()).throw(Terminal('fatal', a)), 'error': lambda i2, a, e: (_ for _ in ()).throw(Terminal('error', cmodel.fmt_of(i2, a, 1)))}
+    for name in OPERANDS:
+        # + operand
+        def runner(it):
+            w = World(prog, it=it, target='x86_64-sysv')
+            op = mkoperand(it, w, name)
+            tokobj = it.gobj('tok'); st = {'i': 0}; seq = ['TADD', 'TIDENT', 'TSEMICOLON']
+            def load():
+                tokobj.f[('kind',)] = ev(prog, seq[min(st['i'], 2)]); tokobj.f[('lit',)] = None
+                tokobj.f[('loc', 'file')] = None; tokobj.f[('loc', 'line')] = 1; tokobj.f[('loc', 'col')] = 1
+            def nxt(i2, a, e): st['i'] += 1; load(); return None
+            def operand(i2, a, e): nxt(i2, a, e); return op
+            it.models.update(ERR); it.models.update({'next': nxt, 'consume': lambda i2, a, e: 0, 'castexpr': operand, 'postfixexpr': operand, 'free': lambda i2, a, e: None})
+            load()
+            return category(it, it.call(ue, [Ptr(Obj('scope', 'heap'), ())]))
+        runs = explore(prog, runner, {}, max_runs=2, on_unsupported='keep')
+        judge('+x', name, runs[0], name not in ('ptr', 'array', 'struct'))
+        # constant ? operand : operand
+        for cv in (1, 0):
+            def runner(it):
+                w = World(prog, it=it, target='x86_64-sysv')
+                l = mkoperand(it, w, name); rr = mkoperand(it, w, name)
+                if name == 'struct': rr.obj.f[('type',)] = l.obj.f[('type',)]
+                if name == 'array': pass
+                cond = w.mkexpr('EXPRCONST', w.t('int'), None, u__constant__u=cv)
+                depth = {'n': 0}
+                def condexpr(i2, a, e):
+                    depth['n'] += 1
+                    try: return rr if depth['n'] > 1 else i2.call(ce, a)
+                    finally: depth['n'] -= 1
+                it.models.update(ERR); it.models.update({'binaryexpr': lambda i2, a, e: cond, 'consume': lambda i2, a, e: 1, 'expr': lambda i2, a, e: l, 'expect': lambda i2, a, e: None, 'condexpr': condexpr, 'free': lambda i2, a, e: None})
+                return category(it, it.call(ce, [Ptr(Obj('scope', 'heap'), ())]))
+            runs = explore(prog, runner, {}, max_runs=2, on_unsupported='keep')
+            judge('%d ? x : y' % cv, name, runs[0], True)
+        # __builtin_expect(operand, 0)
+        if name in ('int', 'long', 'int:7', 'ulong:64'):
+            def runner(it):
+                w = World(prog, it=it, target='x86_64-sysv')
+                op = mkoperand(it, w, name); zero = w.mkexpr('EXPRCONST', w.t('int'), None, u__constant__u=0)
+                q = {'n': 0}
+                def assignexpr(i2, a, e): q['n'] += 1; return op if q['n'] == 1 else zero
+                it.models.update(ERR); it.models.update({'assignexpr': assignexpr, 'expect': lambda i2, a, e: None, 'consume': lambda i2, a, e: 0, 'delexpr': lambda i2, a, e: None, 'free': lambda i2, a, e: None})
+                return category(it, it.call(bf, [Ptr(Obj('scope', 'heap'), ()), ev(prog, 'BUILTINEXPECT')]))
+            runs = explore(prog, runner, {}, max_runs=2, on_unsupported='keep')
+            judge('__builtin_expect(x, 0)', name, runs[0], True)
+    r.exhaustive = False
+
+
+# ------------------------------------------------------------------ C05.n bit-field width through assignment, comma and prefix ++
+
+def rule_bitfield_values(chk, prog, tier):
+    r = chk.rule('C05.n', 'a bit-field has an integer type of its width (6.7.2.1p10); the value of an assignment or compound assignment to it, of prefix ++/-- on it and of a comma expression ending in it has that type, so the integer promotions '
+                 'take it to int when int holds the width - as for the bit-field itself (gcc and clang agree; the value of postfix ++/--, where they differ, is not judged)',
+                 floor=40, oracle='C11 6.3.1.1p2, 6.5.16p3, 6.5.17p2, 6.5.3.1p2, 6.7.2.1p10')
+    O = oracle(SIGNEDCHAR['x86_64-sysv'])
+    ae = prog.require_func('assignexpr', 'expr.c')
+    ex = prog.require_func('expr', 'expr.c')
+    inc = prog.require_func('mkincdecexpr', 'expr.c')
+    pr = prog.require_func('exprpromote', 'expr.c')
+    FIELDS = [('uint', 3), ('int', 7), ('uint', 31), ('uint', 32), ('ulong', 33), ('uchar', 8), ('long', 31), ('ulong', 64), ('uint', None), ('uchar', None), ('ulong', None)]
+    FORMS = ['x', 'x = 1', 'x += 1', 'x |= 1', '++x', '--x', '0, x', '0, x = 1', 'y = x = 1']
+    for tn, wd in FIELDS:
+        for form in FORMS:
+            def runner(it):
+                w = World(prog, it=it, target='x86_64-sysv')
+                u = universe(w)
+                size = O[tn][1]
+                def field(label):
+                    b = w.temp(u[tn], label); b.obj.f[('lvalue',)] = 1
+                    if wd is None: return b
+                    e = w.mkexpr('EXPRBITFIELD', u[tn], b, u__bitfield__bits__before=0, u__bitfield__bits__after=size * 8 - wd); e.obj.f[('lvalue',)] = 1; return e
+                x = field('x'); y = field('y')
+                one = w.mkexpr('EXPRCONST', u['int'], None, u__constant__u=1); zero = w.mkexpr('EXPRCONST', u['int'], None, u__constant__u=0)
+                TK = {'=': 'TASSIGN', '+=': 'TADDASSIGN', '|=': 'TBORASSIGN', ',': 'TCOMMA', ';': 'TSEMICOLON'}
+                toks = form.replace(',', ' ,').split() + [';']
+                tokobj = it.gobj('tok'); st = {'i': 0}
+                def cur(): return toks[min(st['i'], len(toks) - 1)]
+                def load():
+                    tokobj.f[('kind',)] = ev(prog, TK.get(cur(), 'TIDENT')); tokobj.f[('lit',)] = None
+                    tokobj.f[('loc', 'file')] = None; tokobj.f[('loc', 'line')] = 1; tokobj.f[('loc', 'col')] = 1
+                def nxt(i2, a, e): st['i'] += 1; load(); return None
+                def condexpr(i2, a, e):
+                    c = cur()
+                    if c in ('++x', '--x'):
+                        nxt(i2, a, e); return i2.call(inc, [ev(prog, 'TINC' if c[0] == '+' else 'TDEC'), x, 0])
+                    if c not in ('x', 'y', '0', '1'): raise Terminal('error', 'expected expression')
+                    nxt(i2, a, e); return {'x': x, 'y': y, '0': zero, '1': one}[c]
+                it.models.update({'next': nxt, 'condexpr': condexpr, 'free': lambda i2, a, e: None, 'xmalloc': lambda i2, a, e: Ptr(Obj('heap@%s' % e.get('line'), 'heap'), ()),
+                                  'fatal': lambda i2, a, e: (_ for _ in ()).throw(Terminal('fatal', a)), 'error': lambda i2, a, e: (_ for _ in ()).throw(Terminal('error', cmodel.fmt_of(i2, a, 1)))})
+                load()
+                e = it.call(ex, [Ptr(Obj('scope', 'heap'), ())])
+                if cur() != ';': raise Terminal('error', 'not consumed: at %s' % cur())
+                p = it.call(pr, [e])
+                return name_of_type(dict(u), it.load(p.obj, ('type',)))
+            runs = explore(prog, runner, {}, max_runs=2, on_unsupported='keep')
+            key = 'bitfield-value:%s,x=%s%s' % (form, tn, '' if wd is None else ':%d' % wd)
+            if len(runs) != 1 or runs[0].outcome != 'return':
+                raise AnalysisBroken('%s: %s' % (key, [(x_.outcome, x_.detail) for x_ in runs][:2]))
+            want = o_promote(tn, wd, O)
+            r.instance(canon(runs[0].value) == canon(want), key, 'expr.c:bitfieldwidth', 'the promoted type is %s (the type x itself promotes to); cproc promotes the value to %s' % (want, runs[0].value))
+    r.exhaustive = False
 
 
 # ------------------------------------------------------------------ C05.i type specifier multisets
@@ -1197,6 +1333,8 @@ def run(chk, tier):
     chk.guard('C05.e', lambda: rule_compat(chk, prog, tier))
     chk.guard('C05.k', lambda: rule_generic(chk, prog, tier))
     chk.guard('C05.l', lambda: rule_indirection(chk, prog, tier))
+    chk.guard('C05.m', lambda: rule_value_category(chk, prog, tier))
+    chk.guard('C05.n', lambda: rule_bitfield_values(chk, prog, tier))
     from props import c05j
     chk.guard('C05.j', lambda: c05j.rule_exprtypes(chk, prog, tier))
     chk.guard('C05.d', lambda: rule_literals(chk, prog, tier))
